@@ -158,7 +158,7 @@ def scenario(kind, names, V, sv, dec: Decider, asg_mode=False, Vref=None):
         finite_flags.append(v)
         return v
 
-    fs = MemFS(lambda n: '.iter' in os.path.basename(n))
+    fs = MemFS(lambda n: '.iter' in os.path.basename(n))  # (crash scenarios choose the buffering below)
     npshim = shims.NpShim(finite_oracle=oracle, object_alloc=True)
 
     class NpFinite(shims.NpShim):
@@ -229,6 +229,7 @@ def scenario(kind, names, V, sv, dec: Decider, asg_mode=False, Vref=None):
             prior_text = file_state()
             p1 = point('x1')
             ops_before = fs.ops
+            fs.buffered = dec.choose('writes_buffered_until_close', 2) == 1
             fs.crash_at = ops_before + dec.choose('crash_point', 8)
             crashed = False
             try:
